@@ -282,3 +282,28 @@ Theorem direct_parse_key_is_source : forall s key,
   out_res (direct_parse_key_gen s key) = Some (direct_parse_key s key).
 Proof. exact direct_parse_key_bridge. Qed.
 Print Assumptions direct_parse_key_is_source.
+
+(* the character set of strip_f, the two record remappers and the two record loops of the sparse
+   slicers, regenerated from parse.py:178-234 (str.split / strip / join are the primitives of
+   Model/Slicer.v; `{str(v): i for i, v in enumerate(sorted(to_keep))}` is the primitive
+   `remap_lookup`): equal to the hand-written model for every input, ValueError (a record without
+   exactly three fields) and KeyError included; the loops have no fuel (recursion on the records) *)
+Theorem strip_f_is_source : forall x, strip_f_gen x = strip_f x.
+Proof. exact strip_f_bridge. Qed.
+Print Assumptions strip_f_is_source.
+
+Theorem remap_axis_obs_is_source : forall rcv lk, out_res (remap_axis_obs_gen rcv lk) = Some (remap_axis_obs rcv lk).
+Proof. exact remap_axis_obs_bridge. Qed.
+Print Assumptions remap_axis_obs_is_source.
+
+Theorem remap_axis_samp_is_source : forall rcv lk, out_res (remap_axis_samp_gen rcv lk) = Some (remap_axis_samp rcv lk).
+Proof. exact remap_axis_samp_bridge. Qed.
+Print Assumptions remap_axis_samp_is_source.
+
+Theorem slice_obs_is_source : forall data keep, out_res (slice_obs_gen data keep) = Some (slice_obs data keep).
+Proof. exact slice_obs_bridge. Qed.
+Print Assumptions slice_obs_is_source.
+
+Theorem slice_samp_is_source : forall data keep, out_res (slice_samp_gen data keep) = Some (slice_samp data keep).
+Proof. exact slice_samp_bridge. Qed.
+Print Assumptions slice_samp_is_source.
